@@ -4241,7 +4241,7 @@ class Parameters:
     # already have a _state_push() method.
     # (isinstance(g,Parameterized) below is used to exclude classes.)
 
-    def _state_push(self_):
+    def _state_push(self_, _seen=None):
         """
         Save this instance's state.
 
@@ -4258,6 +4258,8 @@ class Parameters:
         self = self_.self_or_cls
         if not isinstance(self, Parameterized):
             raise NotImplementedError('_state_push is not implemented at the class level')
+        _seen = set() if _seen is None else _seen
+        _seen.add(id(self))
         for pname, p in self.param.objects('existing').items():
             g = self.param.get_value_generator(pname)
             if hasattr(g,'_Dynamic_last'):
@@ -4265,10 +4267,11 @@ class Parameters:
                 g._saved_Dynamic_time.append(g._Dynamic_time)
                 # CB: not storing the time_fn: assuming that doesn't
                 # change.
-            elif hasattr(g,'_state_push') and isinstance(g,Parameterized):
-                g._state_push()
+            elif isinstance(g,Parameterized) and id(g) not in _seen:
+                # (a sub-object: its dynamic values are part of this state)
+                g.param._state_push(_seen)
 
-    def _state_pop(self_):
+    def _state_pop(self_, _seen=None):
         """
         Restore the most recently saved state.
 
@@ -4277,13 +4280,15 @@ class Parameters:
         self = self_.self_or_cls
         if not isinstance(self, Parameterized):
             raise NotImplementedError('_state_pop is not implemented at the class level')
+        _seen = set() if _seen is None else _seen
+        _seen.add(id(self))
         for pname, p in self.param.objects('existing').items():
             g = self.param.get_value_generator(pname)
             if hasattr(g,'_Dynamic_last'):
                 g._Dynamic_last = g._saved_Dynamic_last.pop()
                 g._Dynamic_time = g._saved_Dynamic_time.pop()
-            elif hasattr(g,'_state_pop') and isinstance(g,Parameterized):
-                g._state_pop()
+            elif isinstance(g,Parameterized) and id(g) not in _seen:
+                g.param._state_pop(_seen)
 
     def pprint(
         self_,
